@@ -125,7 +125,10 @@ Record bworld := mkworld {
   w_services : list service;
   w_resolver : service }.                       (* the resolver itself (answers service-info queries) *)
 
-Record bstate := mkbs { b_last : option bytes; b_target : option nat }.
+(* the bridge keeps ONE address (the resolver's own, or the one it looked up last) and the interface it believes
+   that address belongs to *)
+Inductive baddr := ARes | ASvc (k : nat).
+Record bstate := mkbs { b_last : option bytes; b_addr : option baddr }.
 
 Definition target_iface (q : request) : option bytes :=
   if beq_bytes (r_method q) m_getdescr then
@@ -158,25 +161,38 @@ Definition direct (w : bworld) (q : request) : option bytes :=
            end
   end.
 
-(* the bridge's step: it resolves only when the interface differs from the previous request's *)
+Section Bridge.
+(* read from proxy.rs: is the remembered interface updated whenever the address is (true), or only after a resolver
+   lookup (false)? *)
+Variable key_always : bool.
+
+(* the bridge's step: the address is chosen anew only when the interface differs from the remembered one *)
 Definition bstep (w : bworld) (st : bstate) (q : request) : bstate * option bytes :=
   let q' := rewrite_req q in
   match target_iface q' with
   | None => (st, None)
   | Some i =>
-      if beq_bytes i s_resolver_name then (mkbs (Some i) (b_target st), Some (fst (serve (w_resolver w) q')))
-      else
-        let tgt := match b_last st with
-                   | Some l => if beq_bytes i l then b_target st else w_resolve w i
-                   | None => w_resolve w i
-                   end in
-        match tgt with
-        | Some k => match nth_error (w_services w) k with
-                    | Some svc => (mkbs (Some i) (Some k), Some (fst (serve svc q')))
-                    | None => (st, None)
-                    end
-        | None => (st, None)
-        end
+      let same := match b_last st with Some l => beq_bytes i l | None => false end in
+      let chosen :=
+        if same then Some st
+        else if beq_bytes i s_resolver_name
+             then Some (mkbs (if key_always then Some i else b_last st) (Some ARes))
+             else match w_resolve w i with
+                  | Some k => Some (mkbs (Some i) (Some (ASvc k)))
+                  | None => None
+                  end in
+      match chosen with
+      | None => (st, None)
+      | Some st1 =>
+          match b_addr st1 with
+          | Some ARes => (st1, Some (fst (serve (w_resolver w) q')))
+          | Some (ASvc k) => match nth_error (w_services w) k with
+                             | Some svc => (st1, Some (fst (serve svc q')))
+                             | None => (st, None)
+                             end
+          | None => (st, None)
+          end
+      end
   end.
 
 Fixpoint brun (w : bworld) (st : bstate) (qs : list request) : bytes :=
@@ -194,40 +210,71 @@ Fixpoint direct_all (w : bworld) (qs : list request) : bytes :=
   | q :: r => match direct w q with Some o => o ++ direct_all w r | None => [] end
   end.
 
-(* the cache never goes stale: the remembered target is what the resolver says for the remembered
-   interface *)
+(* the cache never goes stale: the remembered address is the one that belongs to the remembered interface *)
+Definition addr_of (w : bworld) (l : bytes) : option baddr :=
+  if beq_bytes l s_resolver_name then Some ARes else option_map ASvc (w_resolve w l).
 Definition binv (w : bworld) (st : bstate) : Prop :=
   match b_last st with
-  | Some l => beq_bytes l s_resolver_name = true \/ b_target st = w_resolve w l
+  | Some l => b_addr st = addr_of w l
   | None => True
   end.
 
-Lemma bstep_direct w st q : binv w st ->
+Lemma bstep_direct w st q : key_always = true -> binv w st ->
   snd (bstep w st q) = direct w q /\ binv w (fst (bstep w st q)).
 Proof.
-  intros I. unfold bstep, direct. destruct (target_iface (rewrite_req q)) as [i|]; [|split; [reflexivity|exact I]].
-  destruct (beq_bytes i s_resolver_name) eqn:R.
-  - simpl. split; [reflexivity|]. unfold binv. simpl. left. exact R.
-  - assert (T : (match b_last st with
-                 | Some l => if beq_bytes i l then b_target st else w_resolve w i
-                 | None => w_resolve w i end) = w_resolve w i).
-    { unfold binv in I. destruct (b_last st) as [l|]; [|reflexivity].
-      destruct (beq_bytes_spec i l) as [->|]; [|reflexivity].
-      destruct I as [I|I]; [congruence|exact I]. }
-    rewrite T. destruct (w_resolve w i) as [k|] eqn:Rk; [|split; [reflexivity|exact I]].
-    destruct (nth_error (w_services w) k) as [svc|]; [|split; [reflexivity|exact I]].
-    simpl. split; [reflexivity|]. unfold binv. simpl. right. symmetry. exact Rk.
+  intros K I. unfold bstep, direct. destruct (target_iface (rewrite_req q)) as [i|]; [|split; [reflexivity|exact I]].
+  destruct (b_last st) as [l|] eqn:L.
+  - destruct (beq_bytes_spec i l) as [->|Hne].
+    + (* same interface: the remembered address is used *)
+      assert (A : b_addr st = addr_of w l) by (unfold binv in I; rewrite L in I; exact I).
+      rewrite A. unfold addr_of. destruct (beq_bytes l s_resolver_name) eqn:R.
+      * split; [reflexivity|exact I].
+      * destruct (w_resolve w l) as [k|]; cbn [option_map]; [|split; [reflexivity|exact I]].
+        destruct (nth_error (w_services w) k); split; try reflexivity; exact I.
+    + destruct (beq_bytes i s_resolver_name) eqn:R.
+      * rewrite K. cbn [b_addr]. split; [reflexivity|]. unfold binv. cbn [fst b_last b_addr]. unfold addr_of. rewrite R. reflexivity.
+      * destruct (w_resolve w i) as [k|] eqn:Rk; [|split; [reflexivity|exact I]].
+        cbn [b_addr]. destruct (nth_error (w_services w) k); [|split; [reflexivity|exact I]].
+        split; [reflexivity|]. unfold binv. cbn [fst b_last b_addr]. unfold addr_of. rewrite R, Rk. reflexivity.
+  - destruct (beq_bytes i s_resolver_name) eqn:R.
+    + rewrite K. cbn [b_addr]. split; [reflexivity|]. unfold binv. cbn [fst b_last b_addr]. unfold addr_of. rewrite R. reflexivity.
+    + destruct (w_resolve w i) as [k|] eqn:Rk; [|split; [reflexivity|exact I]].
+      cbn [b_addr]. destruct (nth_error (w_services w) k); [|split; [reflexivity|exact I]].
+      split; [reflexivity|]. unfold binv. cbn [fst b_last b_addr]. unfold addr_of. rewrite R, Rk. reflexivity.
 Qed.
 
 (* C18: through the bridge the client sees, request by request, what the service each request is
    routed to answers (service-info queries: the resolver), for every request sequence, until the
    first request that cannot be routed *)
-Theorem bridge_transparent w qs : forall st, binv w st -> brun w st qs = direct_all w qs.
+Theorem bridge_transparent w qs : key_always = true -> forall st, binv w st -> brun w st qs = direct_all w qs.
 Proof.
-  induction qs as [|q r IH]; intros st I; simpl; [reflexivity|].
-  destruct (bstep_direct w st q I) as [E I']. destruct (bstep w st q) as [st' o]. simpl in *. subst o.
+  intros K. induction qs as [|q r IH]; intros st I; cbn [brun direct_all]; [reflexivity|].
+  destruct (bstep_direct w st q K I) as [E I']. destruct (bstep w st q) as [st' o]. cbn [fst snd] in *. subst o.
   destruct (direct w q); [|reflexivity]. rewrite (IH st' I'). reflexivity.
 Qed.
 
 Lemma binv_init w : binv w (mkbs None None).
 Proof. exact I. Qed.
+End Bridge.
+
+(* with the key updated only after a lookup the cache does go stale: call a, ask the resolver, call a again *)
+Section Stale.
+Variable w : bworld.
+Variables (qa qr : request) (a : bytes) (k : nat) (svc : service).
+Hypothesis Ha : target_iface (rewrite_req qa) = Some a.
+Hypothesis Hr : target_iface (rewrite_req qr) = Some s_resolver_name.
+Hypothesis Hne : beq_bytes a s_resolver_name = false.
+Hypothesis Hk : w_resolve w a = Some k.
+Hypothesis Hs : nth_error (w_services w) k = Some svc.
+
+Lemma stale_cache_misroutes :
+  brun false w (mkbs None None) [qa; qr; qa] =
+  fst (serve svc (rewrite_req qa)) ++ fst (serve (w_resolver w) (rewrite_req qr)) ++ fst (serve (w_resolver w) (rewrite_req qa)) ++ [].
+Proof.
+  cbn [brun]. unfold bstep at 1. rewrite Ha. cbn [b_last]. rewrite Hne, Hk. cbn [b_addr]. rewrite Hs.
+  unfold bstep at 1. rewrite Hr. cbn [b_last].
+  destruct (beq_bytes_spec s_resolver_name a) as [E|_]; [subst a; rewrite beq_bytes_refl in Hne; discriminate|].
+  rewrite beq_bytes_refl. cbn [b_addr b_last].
+  unfold bstep at 1. rewrite Ha. cbn [b_last]. rewrite beq_bytes_refl. cbn [b_addr]. reflexivity.
+Qed.
+End Stale.
